@@ -30,7 +30,9 @@ Q, T = ["quick", "thorough"], ["thorough"]
 
 _g = importlib.util.spec_from_file_location("c08gen", os.path.join(os.path.dirname(os.path.abspath(__file__)), "gen.py")); _gen = importlib.util.module_from_spec(_g); _g.loader.exec_module(_gen)
 # inductive-step harnesses over concrete link structures (3 slots): which are registered is decided by STEP_TIERS
-STEP_TIERS = {}
+# all 32 three-slot step harnesses pass on the current tree (measured 80-500 s each under load); two of them - the ones in
+# which a finalization / a new link jumps over a slot that already holds a status - run in the quick tier
+STEP_TIERS = {n[0]: (Q if n[0] in ("c08_s3_fastfinal_Lx0", "c08_s3_parent20_Lxx") else T) for n in _gen.names(3)}
 def _step(name, kind, o, ls, sp):
     tiers = STEP_TIERS.get(name, T if os.environ.get("VERIF_EXPERIMENTAL") else [])
     what = ("one %s certificate for a symbolic slot" % o) if kind == "cert" else ("add_parent(%d -> %d)" % sp)
@@ -42,14 +44,14 @@ def _step(name, kind, o, ls, sp):
 STEP_HARNESSES = [_step(*x) for x in _gen.names(3)]
 SPEC = {
     "property": "C08",
-    "level_text": "Bounded symbolic verification of the real FinalityTracker against a reference function F written from the property statement (directly finalized = fast-final or final+notar; watermark = end of the decided prefix; each slot reported once; highest finalized slot monotone): on a fresh tracker, every order in which the notarization, fast-finalization and finalization certificates of one slot can arrive (2-3 operations of symbolic kind) leaves the tracker in exactly the state F prescribes and reports exactly the newly finalized slot, once. The solver decides all orders at once; counterexamples are replayed on the real std BTreeMap. Parent links / implicit finalization of ancestors are NOT covered: one operation with a symbolic ancestor walk costs > 3 M symex steps and exceeds the memory cap (measured; DESIGN.md C08).",
+    "level_text": "Bounded symbolic verification of the real FinalityTracker against a reference function F written from the property statement (directly finalized = fast-final or final+notar; watermark = end of the decided prefix; each slot reported once; highest finalized slot monotone): on a fresh tracker, every order in which the notarization, fast-finalization and finalization certificates of one slot can arrive (2-3 operations of symbolic kind) leaves the tracker in exactly the state F prescribes and reports exactly the newly finalized slot, once. The solver decides all orders at once; counterexamples are replayed on the real std BTreeMap. Parent links: inductive-step harnesses (c08_s3_*) - for each of the 6 parent-link structures over slots 0..2 (links are concrete per harness: a symbolic ancestor walk costs > 3 M symex steps), an arbitrary certificate history consistent with the structure (no certificate contradicts a finalization), the tracker state F prescribes for it (both representations of a finalized slot), and ONE operation (a notarization / fast-finalization / finalization certificate for a symbolic slot, or one new parent link): the reported event lists exactly what became directly finalized, implicitly finalized (ancestors over known links) and implicitly skipped (slots jumped over), each once, and the post-state - statuses, parent map, highest finalized slot, watermark = end of the decided prefix, nothing retained below it - is F of the extended history. With the base case this covers histories of any length over 3 slots, in every order. Whether genesis is listed again as implicitly finalized is not prescribed (at most once).",
     "level_note": "Bounds: slots 0..2, certificates of one slot, 2-3 operations from the fresh state, no parent links. Assumes each certificate kind reaches the tracker at most once per slot and only at or above the watermark (pool.rs guards). std BTreeMap / Vec inside finality_tracker.rs are replaced by bounded array stand-ins (verif_coll) under Kani; native replay uses the real ones. All blocks carry the same hash value (block identity = slot). Trusts Kani, CBMC, CaDiCaL.",
     "overlays": [COLL, {"src": "C08/kani_c08.rs", "dest": "src/consensus/pool/finality_tracker/kani_c08.rs", "decl_in": FT, "decl": "mod kani_c08;"}],
     "redirects": REDIRECTS,
     "coll_cap": 4,
     # 32-byte hashes as whole arrays instead of 32 scalar symbols each: 5x fewer symex steps
     "functions": ["consensus::pool::finality_tracker::FinalityTracker::{default,add_parent,mark_notarized,mark_fast_finalized,mark_finalized,handle_finalized_block,handle_implicitly_finalized,prune,highest_finalized_slot,first_unpruned_slot}"],
-    "bounds": "slots 0..2, the three certificate kinds of one slot in every order (2-3 operations) from the fresh tracker; no parent links",
+    "bounds": "slots 0..2: the three certificate kinds of one slot in every order (2-3 operations) from the fresh tracker; one operation from an arbitrary consistent state for each of the 6 parent-link structures; pool window over all u64 slots",
     "explanation": "Bounded-history harnesses over a ghost certificate history G: after every operation the tracker state and the reported event are compared with F(G). Decided by Kani -> CBMC -> CaDiCaL over all operation kinds/orders within the bound. (Inductive-step harnesses over arbitrary history-consistent states with parent links exist in kani_c08.rs but exceed the memory cap and are not registered.)",
     "assumptions": [
         "no certificate contradicts a finalization (a slot skipped over by a finalized chain is not final-/fast-final-certified or finalized)",
@@ -58,7 +60,7 @@ SPEC = {
         "bounded array map / bounded vector stand in for std BTreeMap / Vec inside finality_tracker.rs under Kani (<= 5 live entries)",
     ],
     "trusted_base": ["verif_coll::BTreeMap stand-in", "reference function F(G) in kani_c08.rs written from the property statement"],
-    "outside": ["parent links: implicit finalization of ancestors, implicit skips, watermark advancing over them (cost, measured)", "several certified blocks per slot (conflicting certificates)", "PoolImpl::add_cert/add_vote bounds (async, tokio channels)"],
+    "outside": ["link structures over more than 3 slots (the 4-slot list is generated in kani_c08.rs, not registered)", "whether genesis is listed again as implicitly finalized", "several certified blocks per slot (conflicting certificates)", "PoolImpl::add_cert/add_vote bounds (async, tokio channels)"],
     "harnesses": [
         {"name": "c08_base", "path": MOD, "tiers": Q, "role": "base case", "functions": ["FinalityTracker::default"], "bounds": "none", "covers": 1},
         _certs(3, 2, 1, Q), _certs(2, 3, 1, T), _certs(3, 3, 2, T),
